@@ -1,23 +1,40 @@
 import PlasVerif.Proofs.Dom
 import PlasVerif.Proofs.DomViews
 import PlasVerif.Proofs.DomSpec
+import PlasVerif.Proofs.DomClone
+import PlasVerif.Proofs.DomNormalize
+import PlasVerif.Proofs.DomCompare
+import PlasVerif.Proofs.DomCompareSpec
+import PlasVerif.Proofs.DomWF
+import PlasVerif.Proofs.DomTreeBelow
 /-!
 # C06 — the document tree stays a consistent tree under DOM edits
 
-Property theorems over the heap model `Model/Dom.lean` (helper lemmas: `Proofs/Dom.lean`, `Proofs/DomViews.lean`,
-`Proofs/DomTree.lean`).  Vocabulary (defined in `Proofs/Dom.lean`):
-`NoAlias h` = no node's `childNodes` is its `attributes['self']` fragment; `Inv h` = every child listed by a
-non-fragment node names that node as `parentNode` and is listed once; `Detached h c` = `c` is listed by no
-non-fragment node (the property's "detached argument"); `Acyclic h` = a rank decreases along every child edge;
-`Owned h` = every node's `ownerDocument` is the document that created it; `Reaches h a b` = `b` is `a` or a descendant.
+Property theorems over the heap model `Model/Dom.lean`.  Helper lemmas: `Proofs/Dom.lean` (primitive steps, invariant,
+owner, acyclicity, fragments, extend), `Proofs/DomViews.lean` (views against the unfolded tree), `Proofs/DomSpec.lean`
+(the Spec's domain checks), `Proofs/DomTree.lean` (tree-level normalisation), `Proofs/DomClone.lean` (cloneNode),
+`Proofs/DomNormalize.lean` (normalize), `Proofs/DomWF.lean` (well-formedness), `Proofs/DomTreeBelow.lean` (tree-ness),
+`Proofs/DomCompare.lean`, `Proofs/DomCompareSpec.lean` (compareDocumentPosition).
 
-Proved for every history (`tree_reachable`): `Inv`, `Acyclic`, `Owned`.  Proved per operation: refinement of the
-plain list operation (`*_refines_list`), the derived views, and the normalisation theorems on trees.
-Not proved, kept as `…_statement` at the end: heap-level `normalize`/`cloneNode` against the tree-level functions
-and `compareDocumentPosition`; they and the `self`-attribute aliasing are carried by the correspondence streams.
+Vocabulary: `NoAlias h` = no node's `childNodes` is its `attributes['self']` fragment; `Inv h` = every child listed by a
+non-fragment node names that node as `parentNode` and is listed once; `Detached h c` = `c` is listed by no
+non-fragment node (the property's "detached argument"); `FragArg` = a fragment of distinct detached items;
+`Acyclic h` = a rank decreases along every child edge; `Owned h` = every node's `ownerDocument` is the document that
+created it; `WF h` = listed ids are allocated, no fragment is listed, nothing beyond the allocation counter;
+`TreeBelow h s` = the unfolding of `s` repeats no node; `UpChain h a l` = `l` is the parent chain of `a`.
+
+Proved for every history of the sixteen editing operations (`forest_reachable`): `Inv`, `Acyclic`, `Owned`, `WF`, and
+`TreeBelow` for every non-fragment node.  Per operation: refinement of the plain list operation (`*_refines_list`,
+single nodes and fragments) and agreement with the executable Spec (`*_commutes`).  Derived views, also without
+`NoAlias`.  `cloneNode(True)`: equal, disjoint, detached (`clone_equal_disjoint`).  `normalize` at heap level =
+`Tree.normalize` (`normalize_refines_tree`) with its three corollaries.  `compareDocumentPosition` = the preorder
+comparison for two nodes of one tree, against the parent chains and against the Spec's `comparePos`.
+`compareDocumentPosition_agrees_all`: equal to the Spec's `comparePos` for every pair of nodes with proper parent chains.
+Kept as `…_statement` at the end: `normalize`/`cloneNode` as steps of a history keep the forest invariants.
 -/
 namespace PlasVerif.Properties.C06
 open PlasVerif.Model.Dom PlasVerif.Proofs.Dom PlasVerif.Proofs.DomViews PlasVerif.Proofs.DomSpec
+open PlasVerif.Proofs.DomCompare PlasVerif.Proofs.DomWF PlasVerif.Proofs.DomCompareSpec
 open PlasVerif.Spec
 
 /-! ## the invariant and histories -/
@@ -38,6 +55,11 @@ inductive Op
   | extend (s : Id) (cs : List Id)
   | appendFrag (s c : Id)                 -- `append` with a fragment argument (its items are spliced in)
   | insertFrag (s : Id) (i : Int) (c : Id)
+  | insertBeforeFrag (s new ref : Id)
+  | insertAfterFrag (s new ref : Id)
+  | replaceChildFrag (s new old : Id)
+  | setItemFrag (s : Id) (i : Int) (c : Id)
+  | extendAny (s : Id) (cs : List Id)     -- `extend` with any mix of single nodes and fragments
 
 /-- what the model does for an operation (the error, if any, is dropped: the state is what matters) -/
 def applyOp (h : Heap) : Op → Heap
@@ -52,10 +74,11 @@ def applyOp (h : Heap) : Op → Heap
   | .extend s cs => (extend h s cs).1
   | .appendFrag s c => (opAppend h s c).1
   | .insertFrag s i c => (opInsert h s i c).1
-
-/-- a fragment argument: not the receiver, listed nowhere, its items distinct, detached single nodes -/
-def FragArg (h : Heap) (s c : Id) : Prop :=
-  h.kind c = .frag ∧ c ≠ s ∧ Detached h c ∧ (h.kids c).Nodup ∧ ∀ it ∈ h.kids c, h.kind it ≠ .frag ∧ Detached h it
+  | .insertBeforeFrag s n r => (insertBefore h s n r).1
+  | .insertAfterFrag s n r => (insertAfter h s n r).1
+  | .replaceChildFrag s n o => (replaceChild h s n o).1
+  | .setItemFrag s i c => (setItem h s i c).1
+  | .extendAny s cs => (extend h s cs).1
 
 /-- the documented precondition: the argument is a detached node (for the three moving operations it may
     already be a child of the receiver); nothing is required of indexes, references or the receiver -/
@@ -71,6 +94,11 @@ def Pre (h : Heap) : Op → Prop
   | .extend _ cs => cs.Nodup ∧ ∀ c ∈ cs, h.kind c ≠ .frag ∧ Detached h c
   | .appendFrag s c => FragArg h s c
   | .insertFrag s _ c => FragArg h s c
+  | .insertBeforeFrag s n _ => FragArg h s n
+  | .insertAfterFrag s n _ => FragArg h s n
+  | .replaceChildFrag s n _ => FragArg h s n
+  | .setItemFrag s _ c => FragArg h s c
+  | .extendAny s cs => ExtendPre s h cs
 
 /-- histories whose every step meets its precondition in the state it is applied to -/
 def Valid : Heap → List Op → Prop
@@ -139,6 +167,13 @@ theorem inv_step (h : Heap) (o : Op) (ha : NoAlias h) (hi : Inv h) (hp : Pre h o
       insert_frag_eq ha s i c hk (fun it hm => (hit it hm).1)]
     have := inv_insertAll s (h.kids c) h i ha hi hnd (fun it hm => (hit it hm).2)
     exact ⟨noAlias_setPO this.1 s c, inv_setPO this.2 s c (detached_insertAll s _ c h i hcn hdc)⟩
+  | insertBeforeFrag s n r => exact insertRel_frag_inv ha hi 0 s n r hp
+  | insertAfterFrag s n r => exact insertRel_frag_inv ha hi 1 s n r hp
+  | replaceChildFrag s n o => exact replaceChild_frag_inv ha hi s n o hp
+  | setItemFrag s i c => exact setItem_frag_inv ha hi s i c hp
+  | extendAny s cs =>
+    simp only [applyOp, (extend_any_fst ha s cs hp).1]
+    exact extend_any_inv s cs h ha hi hp
 
 /-- **the tree invariant holds after every history** of append, insert, pop, removeChild, insertBefore,
     insertAfter, replaceChild, item assignment and extend with single-node arguments and of append / insert
@@ -160,7 +195,8 @@ example : Valid ((create (create init 0 .elem 0 []).1 0 .elem 1 []).1)
   · intro n _ hn; simp [applyOp, opAppend, splices, create, init, upd, fuelOf, append, appendLeaf, setPO, rawAppend, hn]
 
 /-- **every node keeps the document that created it**, whatever the operation -/
-theorem owner_preserved (h : Heap) (o : Op) (ha : NoAlias h) (hp : Pre h o) (ho : Owned h) : Owned (applyOp h o) := by
+theorem owner_preserved (h : Heap) (o : Op) (ha : NoAlias h) (hi : Inv h) (hp : Pre h o) (ho : Owned h) :
+    Owned (applyOp h o) := by
   cases o with
   | append s c => simp only [applyOp, opAppend_leaf ha s c hp.1]; exact owned_putAt ho _ _ _
   | insert s i c => simp only [applyOp, opInsert_leaf ha s i c hp.1]; exact owned_putAt ho _ _ _
@@ -197,6 +233,13 @@ theorem owner_preserved (h : Heap) (o : Op) (ha : NoAlias h) (hp : Pre h o) (ho 
     simp only [applyOp, opInsert, splices_ne ha s c hne, Bool.false_eq_true, if_false,
       insert_frag_eq ha s i c hk (fun it hm => (hit it hm).1)]
     exact owned_setPO (owned_insertAll s _ h i ho) s c
+  | insertBeforeFrag s n r => exact insertRel_frag_owned ha ho 0 s n r hp
+  | insertAfterFrag s n r => exact insertRel_frag_owned ha ho 1 s n r hp
+  | replaceChildFrag s n o => exact replaceChild_frag_owned ha ho s n o hp
+  | setItemFrag s i c => exact setItem_frag_owned ha ho s i c hp
+  | extendAny s cs =>
+    simp only [applyOp, (extend_any_fst ha s cs hp).1]
+    exact extend_any_owned s cs h ha hi ho hp
 
 /-- … hence after every valid history -/
 theorem owner_reachable (ops : List Op) : ∀ h, NoAlias h → Inv h → Owned h → Valid h ops →
@@ -206,7 +249,7 @@ theorem owner_reachable (ops : List Op) : ∀ h, NoAlias h → Inv h → Owned h
   | cons o os ih =>
     intro h ha hi ho hv
     have := inv_step h o ha hi hv.1
-    exact ih _ this.1 this.2 (owner_preserved h o ha hv.1 ho) hv.2
+    exact ih _ this.1 this.2 (owner_preserved h o ha hi hv.1 ho) hv.2
 
 example : Owned init := fun _ => rfl
 
@@ -223,10 +266,16 @@ def NotAncestor (h : Heap) : Op → Prop
   | .extend s cs => ∀ c ∈ cs, ¬ Reaches h c s
   | .appendFrag s c => ∀ it ∈ h.kids c, ¬ Reaches h it s
   | .insertFrag s _ c => ∀ it ∈ h.kids c, ¬ Reaches h it s
+  | .insertBeforeFrag s n _ => ∀ it ∈ h.kids n, ¬ Reaches h it s
+  | .insertAfterFrag s n _ => ∀ it ∈ h.kids n, ¬ Reaches h it s
+  | .replaceChildFrag s n _ => ∀ it ∈ h.kids n, ¬ Reaches h it s
+  | .setItemFrag s _ c => ∀ it ∈ h.kids c, ¬ Reaches h it s
+  | .extendAny s cs => ExtendSafe s h cs
 
 /-- **the child lists stay acyclic** (a rank decreases along every child edge) under every operation whose
     argument is not an ancestor of the receiver -/
-theorem acyclic_step (h : Heap) (o : Op) (ha : NoAlias h) (hp : Pre h o) (hs : NotAncestor h o) (hac : Acyclic h) :
+theorem acyclic_step (h : Heap) (o : Op) (ha : NoAlias h) (hi : Inv h) (hp : Pre h o) (hs : NotAncestor h o)
+    (hac : Acyclic h) :
     Acyclic (applyOp h o) := by
   cases o with
   | append s c => simp only [applyOp, opAppend_leaf ha s c hp.1]; exact acyclic_putAt hac _ _ _ hs
@@ -268,6 +317,13 @@ theorem acyclic_step (h : Heap) (o : Op) (ha : NoAlias h) (hp : Pre h o) (hs : N
     simp only [applyOp, opInsert, splices_ne ha s c hne, Bool.false_eq_true, if_false,
       insert_frag_eq ha s i c hk (fun it hm => (hit it hm).1)]
     exact acyclic_setPO (acyclic_insertAll s _ h i hac hs) s c
+  | insertBeforeFrag s n r => exact insertRel_frag_acyclic ha hac 0 s n r hp hs
+  | insertAfterFrag s n r => exact insertRel_frag_acyclic ha hac 1 s n r hp hs
+  | replaceChildFrag s n o => exact replaceChild_frag_acyclic ha hac s n o hp hs
+  | setItemFrag s i c => exact setItem_frag_acyclic ha hac s i c hp hs
+  | extendAny s cs =>
+    simp only [applyOp, (extend_any_fst ha s cs hp).1]
+    exact extend_any_acyclic s cs h ha hi hac hp hs
 
 /-- histories whose every step meets its precondition and never puts an ancestor below itself -/
 def ValidTree : Heap → List Op → Prop
@@ -283,7 +339,7 @@ theorem tree_reachable (ops : List Op) : ∀ h, NoAlias h → Inv h → Acyclic 
   | cons o os ih =>
     intro h ha hi hac ho hv
     have := inv_step h o ha hi hv.1
-    exact ih _ this.1 this.2 (acyclic_step h o ha hv.1 hv.2.1 hac) (owner_preserved h o ha hv.1 ho) hv.2.2
+    exact ih _ this.1 this.2 (acyclic_step h o ha hi hv.1 hv.2.1 hac) (owner_preserved h o ha hi hv.1 ho) hv.2.2
 
 /-- non-vacuity of `tree_reachable`: two fresh elements; append 1 to the document, insert 2 before it, pop the last -/
 example : ValidTree ((create (create init 0 .elem 0 []).1 0 .elem 1 []).1)
@@ -296,6 +352,52 @@ example : ValidTree ((create (create init 0 .elem 0 []).1 0 .elem 1 []).1)
     exact absurd (reaches_leaf (by simp [applyOp, opAppend, splices, create, init, upd, fuelOf, append, appendLeaf, setPO, rawAppend]) hr) (by decide)
 
 example : Acyclic init := ⟨fun _ => 0, by intro n x hx; simp [init] at hx⟩
+
+/-! ## well-formedness (`WF`: listed ids are allocated, no fragment is listed, nothing beyond the allocation counter) -/
+
+/-- receiver and arguments are allocated nodes -/
+def Allocated (h : Heap) : Op → Prop
+  | .append s c => s < h.next ∧ c < h.next
+  | .insert s _ c => s < h.next ∧ c < h.next
+  | .setItem s _ c => s < h.next ∧ c < h.next
+  | .pop _ _ => True
+  | .removeChild _ _ => True
+  | .insertBefore s n _ => s < h.next ∧ n < h.next
+  | .insertAfter s n _ => s < h.next ∧ n < h.next
+  | .replaceChild s n _ => s < h.next ∧ n < h.next
+  | .extend s cs => s < h.next ∧ ∀ c ∈ cs, c < h.next
+  | .appendFrag s c => s < h.next ∧ c < h.next
+  | .insertFrag s _ c => s < h.next ∧ c < h.next
+  | .insertBeforeFrag s n _ => s < h.next ∧ n < h.next
+  | .insertAfterFrag s n _ => s < h.next ∧ n < h.next
+  | .replaceChildFrag s n _ => s < h.next ∧ n < h.next
+  | .setItemFrag s _ c => s < h.next ∧ c < h.next
+  | .extendAny s cs => s < h.next ∧ ∀ c ∈ cs, c < h.next
+
+/-- every operation keeps the heap well-formed and allocates nothing -/
+theorem wf_step (h : Heap) (o : Op) (ha : NoAlias h) (hi : Inv h) (hp : Pre h o) (hal : Allocated h o) (hw : WF h) :
+    WF (applyOp h o) := by
+  cases o with
+  | append s c => exact wf_opAppend_leaf ha hw s c hal.1 hal.2 hp.1
+  | insert s i c => exact wf_opInsert_leaf ha hw s i c hal.1 hal.2 hp.1
+  | pop s i => simp only [applyOp, opPop_fst]; exact wf_pop ha hw s i
+  | removeChild s c => exact wf_removeChild ha hw s c
+  | insertBefore s n r => exact wf_insertRel_leaf ha hw 0 s n r hal.1 hal.2 hp.1
+  | insertAfter s n r => exact wf_insertRel_leaf ha hw 1 s n r hal.1 hal.2 hp.1
+  | replaceChild s n o => exact wf_replaceChild_leaf ha hw s n o hal.1 hal.2 hp.1
+  | setItem s i c => exact wf_setItem_leaf ha hw s i c hal.1 hal.2 hp.1
+  | extend s cs => exact wf_extend_leaf ha hw s cs hal.1 (fun c hc => ⟨hal.2 c hc, (hp.2 c hc).1⟩)
+  | appendFrag s c => exact wf_opAppend_frag ha hw s c hal.1 hal.2 hp
+  | insertFrag s i c => exact wf_opInsert_frag ha hw s i c hal.1 hal.2 hp
+  | insertBeforeFrag s n r => exact wf_insertRel_frag ha hw 0 s n r hal.1 hal.2 hp
+  | insertAfterFrag s n r => exact wf_insertRel_frag ha hw 1 s n r hal.1 hal.2 hp
+  | replaceChildFrag s n o => exact wf_replaceChild_frag ha hw s n o hal.1 hal.2 hp
+  | setItemFrag s i c => exact wf_setItem_frag ha hw s i c hal.1 hal.2 hp
+  | extendAny s cs =>
+    simp only [applyOp, (extend_any_fst ha s cs hp).1]
+    exact wf_extend_any s cs h ha hi hw hal.1 hal.2 hp
+
+example : WF init := ⟨fun n hn c hc => by simp [init] at hc, fun n _ => rfl⟩
 
 /-! ## each operation refines the plain list operation -/
 
@@ -451,6 +553,121 @@ theorem insert_fragment_refines_list (h : Heap) (s c : Id) (i : Nat) (ha : NoAli
   simp only [opInsert, splices_ne ha s c hne, Bool.false_eq_true, if_false, insert_frag_eq ha s i c hk hit, setPO_kids]
   exact kids_insertAll s _ h i hi
 
+private theorem insertRel_fragment_refines (off : Nat) (hoff : off ≤ 1) (h : Heap) (s new ref : Id) (ha : NoAlias h)
+    (hk : h.kind new = .frag) (hne : new ≠ s) (hit : ∀ it ∈ h.kids new, h.kind it ≠ .frag)
+    (hr : ref ∈ (h.kids s).erase new) :
+    (insertRel off h s new ref).1.kids s =
+      ((h.kids s).erase new).take (((h.kids s).erase new).idxOf ref + off) ++ h.kids new ++
+        ((h.kids s).erase new).drop (((h.kids s).erase new).idxOf ref + off) ∧
+    ∀ n, n ≠ s → (insertRel off h s new ref).1.kids n = h.kids n := by
+  rw [insertRel_frag_eq ha off s new ref hk hne hit]
+  simp only [removeChild_kids_self ha, hr, if_true, setPO_kids]
+  have hlt := List.idxOf_lt_length_of_mem hr
+  have := kids_insertAll s (h.kids new) (removeChild h s new).1 (((h.kids s).erase new).idxOf ref + off)
+    (by rw [removeChild_kids_self ha]; omega)
+  refine ⟨?_, fun n hn => ?_⟩
+  · rw [this.1, removeChild_kids_self ha]
+  · rw [this.2 n hn, removeChild_kids_other ha s new n hn]
+
+/-- `insertBefore(fragment, ref)`: the items are spliced in before `ref`, in order -/
+theorem insertBefore_fragment_refines_list (h : Heap) (s new ref : Id) (ha : NoAlias h)
+    (hk : h.kind new = .frag) (hne : new ≠ s) (hit : ∀ it ∈ h.kids new, h.kind it ≠ .frag)
+    (hr : ref ∈ (h.kids s).erase new) :
+    (insertBefore h s new ref).1.kids s =
+      ((h.kids s).erase new).take (((h.kids s).erase new).idxOf ref) ++ h.kids new ++
+        ((h.kids s).erase new).drop (((h.kids s).erase new).idxOf ref) ∧
+    ∀ n, n ≠ s → (insertBefore h s new ref).1.kids n = h.kids n :=
+  insertRel_fragment_refines 0 (by omega) h s new ref ha hk hne hit hr
+
+/-- `insertAfter(fragment, ref)` -/
+theorem insertAfter_fragment_refines_list (h : Heap) (s new ref : Id) (ha : NoAlias h)
+    (hk : h.kind new = .frag) (hne : new ≠ s) (hit : ∀ it ∈ h.kids new, h.kind it ≠ .frag)
+    (hr : ref ∈ (h.kids s).erase new) :
+    (insertAfter h s new ref).1.kids s =
+      ((h.kids s).erase new).take (((h.kids s).erase new).idxOf ref + 1) ++ h.kids new ++
+        ((h.kids s).erase new).drop (((h.kids s).erase new).idxOf ref + 1) ∧
+    ∀ n, n ≠ s → (insertAfter h s new ref).1.kids n = h.kids n :=
+  insertRel_fragment_refines 1 (by omega) h s new ref ha hk hne hit hr
+
+/-- `replaceChild(fragment, old)`: the items take the place of `old` -/
+theorem replaceChild_fragment_refines_list (h : Heap) (s new old : Id) (ha : NoAlias h)
+    (hk : h.kind new = .frag) (hne : new ≠ s) (hit : ∀ it ∈ h.kids new, h.kind it ≠ .frag)
+    (hr : old ∈ (h.kids s).erase new) :
+    (replaceChild h s new old).1.kids s =
+      ((h.kids s).erase new).take (((h.kids s).erase new).idxOf old) ++ h.kids new ++
+        ((h.kids s).erase new).drop (((h.kids s).erase new).idxOf old + 1) ∧
+    ∀ n, n ≠ s → (replaceChild h s new old).1.kids n = h.kids n := by
+  rw [replaceChild_frag_eq ha s new old hk hne hit]
+  have ha1 := noAlias_removeChild ha s new
+  simp only [removeChild_kids_self ha, hr, if_true, setPO_kids]
+  have hlt := List.idxOf_lt_length_of_mem hr
+  have hx : ((removeChild h s new).1.kids s)[((h.kids s).erase new).idxOf old]? = some old := by
+    rw [removeChild_kids_self ha, List.getElem?_eq_getElem hlt, List.getElem_idxOf hlt]
+  have hpop := pop_eq ha1 s (((h.kids s).erase new).idxOf old : Nat) _ old
+    (by rw [removeChild_kids_self ha]; exact pyPopPos_nat hlt) hx
+  rw [hpop]
+  have := kids_insertAll s (h.kids new) (takeAt (removeChild h s new).1 s (((h.kids s).erase new).idxOf old) old)
+    (((h.kids s).erase new).idxOf old)
+    (by rw [takeAt_kids_self, removeChild_kids_self ha, List.length_eraseIdx]; simp [hlt]; omega)
+  refine ⟨?_, fun n hn => ?_⟩
+  · rw [this.1, takeAt_kids_self, removeChild_kids_self ha, take_eraseIdx_self _ _ hlt, drop_eraseIdx_self _ _ hlt]
+  · rw [this.2 n hn, takeAt_kids_other _ s _ old n hn, removeChild_kids_other ha s new n hn]
+
+/-- `node[i] = fragment` with `0 ≤ i < len`: the items take the place of the old item -/
+theorem setItem_fragment_refines_list (h : Heap) (s c : Id) (i : Nat) (ha : NoAlias h)
+    (hk : h.kind c = .frag) (hne : c ≠ s) (hit : ∀ it ∈ h.kids c, h.kind it ≠ .frag) (hi : i < (h.kids s).length) :
+    (setItem h s i c).1.kids s = (h.kids s).take i ++ h.kids c ++ (h.kids s).drop (i + 1) ∧
+    (∀ n, n ≠ s → (setItem h s i c).1.kids n = h.kids n) ∧ (setItem h s i c).2 = none := by
+  rw [setItem_frag_eq ha s i c hk hne hit]
+  have hins := kids_insertAll s (h.kids c) h i (Nat.le_of_lt hi)
+  have ha1 := noAlias_insertAll s (h.kids c) h i ha
+  have hlen : i + (h.kids c).length < ((insertAll h s i (h.kids c)).1.kids s).length := by
+    rw [hins.1]; simp; omega
+  have hcast : ((i : Int) + ((h.kids c).length : Int)) = ((i + (h.kids c).length : Nat) : Int) := by omega
+  have hpop := pop_eq ha1 s ((i : Int) + (h.kids c).length) (i + (h.kids c).length) _
+    (by rw [hcast]; exact pyPopPos_nat hlen) (List.getElem?_eq_getElem hlen)
+  refine ⟨?_, fun n hn => ?_, ?_⟩
+  · rw [opPop_fst, hpop, takeAt_kids_self, hins.1, eraseIdx_after_block _ _ _ hi]
+  · rw [opPop_fst, hpop, takeAt_kids_other _ s _ _ n hn, hins.2 n hn]
+  · unfold opPop; rw [hpop]
+
+/-- `extend` with any mix of single nodes and fragments: `l ++` the items of each argument, in order -/
+theorem extend_any_refines_list (s : Id) (cs : List Id) : ∀ (h : Heap), NoAlias h →
+    (∀ c ∈ cs, h.kind c = .frag → c ≠ s ∧ ∀ it ∈ h.kids c, h.kind it ≠ .frag) →
+    (extend h s cs).1.kids s = h.kids s ++ cs.flatMap (itemsOf h) ∧
+    (∀ n, n ≠ s → (extend h s cs).1.kids n = h.kids n) ∧ (extend h s cs).2 = none := by
+  induction cs with
+  | nil => intro h _ _; simp [extend]
+  | cons c cs ih =>
+    intro h ha hc
+    rw [extend_any_eq s (c :: cs) h ha (fun d hd hk => (hc d hd hk).1)]
+    have hstep : (opAppend h s c).1.kids s = h.kids s ++ itemsOf h c ∧
+        ∀ n, n ≠ s → (opAppend h s c).1.kids n = h.kids n := by
+      by_cases hk : h.kind c = .frag
+      · have := append_fragment_refines_list h s c ha hk (hc c (by simp) hk).1 (hc c (by simp) hk).2
+        simp [itemsOf, hk, this.1]; exact this.2.1
+      · have := append_refines_list h s c ha hk
+        simp [itemsOf, hk, this.1]; exact this.2.1
+    have hc' : ∀ d ∈ cs, (opAppend h s c).1.kind d = .frag → d ≠ s ∧ ∀ it ∈ (opAppend h s c).1.kids d, (opAppend h s c).1.kind it ≠ .frag := by
+      intro d hd hk
+      rw [opAppend_kind] at hk
+      have := hc d (by simp [hd]) hk
+      refine ⟨this.1, ?_⟩
+      rw [hstep.2 d this.1, opAppend_kind]; exact this.2
+    have hrec := ih (opAppend h s c).1 (noAlias_opAppend ha s c) hc'
+    rw [extend_any_eq s cs _ (noAlias_opAppend ha s c) (fun d hd hk => (hc' d hd hk).1)] at hrec
+    simp only [List.foldl_cons]
+    have hitems : cs.flatMap (itemsOf (opAppend h s c).1) = cs.flatMap (itemsOf h) := by
+      apply flatMap_congr_mem
+      intro d hd
+      simp only [itemsOf, opAppend_kind]
+      split
+      · rename_i hk; rw [hstep.2 d (hc d (by simp [hd]) hk).1]
+      · rfl
+    refine ⟨?_, fun n hn => ?_, trivial⟩
+    · rw [hrec.1, hstep.1, hitems]; simp
+    · rw [hrec.2.1 n hn, hstep.2 n hn]
+
 /-- a fragment spliced into a fragment: the receiver's own parent is handed on (the `setParent` rule) -/
 theorem append_to_fragment_parent (h : Heap) (s c : Id) (ha : NoAlias h) (hc : h.kind c ≠ .frag) (hs : h.kind s = .frag) :
     (opAppend h s c).1.parent c = h.parent s := by
@@ -490,6 +707,41 @@ theorem getElementsByTagName_is_preorder_filter (h : Heap) (n : Id) (tag fuel : 
   elements_abs ha tag fuel n
 
 example : textContent 3 (opAppend (opAppend (create (create init 0 .elem 0 []).1 0 .text 0 [104, 105]).1 0 1).1 1 2).1 0 = [104, 105] := by
+  decide
+
+/-! ## without `NoAlias`: a node whose `attributes['self']` fragment is its child list
+
+`toLLc h` is the list-of-lists model whose child list of a node is what `iter(node)` yields (`childList`): the
+fragment's list for a node that has the `self` attribute, its own list otherwise.  No hypothesis on the heap. -/
+
+/-- the children of such a node are exactly the fragment's items -/
+theorem aliased_child_list (h : Heap) (e f : Id) (he : h.attr e = some f) : childList h e = h.kids f := by
+  simp [childList, cn, he]
+
+/-- `firstChild` / `lastChild` are the ends of `childNodes`, aliased or not -/
+theorem first_last_aliased (h : Heap) (s : Id) :
+    firstChild h s = (childList h s).head? ∧ lastChild h s = (childList h s).getLast? := ⟨rfl, rfl⟩
+
+/-- `textContent` is the concatenation in document order of the tree unfolded through `childNodes` -/
+theorem textContent_is_concat_aliased (h : Heap) (n : Id) (fuel : Nat) :
+    textContent (fuel + 1) h n = (DomTree.abs (fuel + 1) (toLLc h) n).textContent := by
+  have := textContent_child_c h (fuel + 1) n
+  by_cases hk : h.kind n = .text
+  · rw [← this]; simp [hk, textContent]
+  · rw [← this]; simp [hk]
+
+/-- `getElementsByTagName` (after the repair) is the preorder filter of that tree: every matching element once
+    per place it occupies, none twice because it is also reachable through the attribute -/
+theorem getElementsByTagName_is_preorder_filter_aliased (h : Heap) (n : Id) (tag fuel : Nat) :
+    getElementsByTagName fuel h n tag = (DomTree.abs fuel (toLLc h) n).elementsByName tag :=
+  elements_abs_c h tag fuel n
+
+/-- the pinned code before the repair reported a child held by the `self` attribute twice: element 1 with
+    `attributes['self']` = fragment 3 = [element 2] -/
+theorem getElementsByTagName_asIs_counterexample :
+    let h0 := (create (create (create init 0 .elem 0 []).1 0 .elem 1 []).1 0 .frag 0 []).1
+    let h1 := setSelfAttr (opAppend h0 3 2).1 1 3
+    getElementsByTagNameAsIs 4 h1 1 1 = [2, 2] ∧ getElementsByTagName 4 h1 1 1 = [2] := by
   decide
 
 /-! ## normalisation (the pop-all-then-rebuild algorithm, on trees) -/
@@ -643,30 +895,558 @@ theorem insertAfter_commutes (h : Heap) (s new ref : Id) (ha : NoAlias h) (hk : 
     (m' : DomTree.LL) (hs : DomTree.insertRel? 1 (toLL h) s new ref = some m') :
     (insertAfter h s new ref).1.kids = m'.kids := insertRel_commutes 1 (by omega) h s new ref ha hk m' hs
 
+/-- item assignment, single node or fragment -/
+theorem setItem_commutes_any (h : Heap) (s c : Id) (i : Int) (ha : NoAlias h) (m' : DomTree.LL)
+    (hs : DomTree.setItem? (toLL h) s i c = some m') : (setItem h s i c).1.kids = m'.kids := by
+  by_cases hk : h.kind c = .frag
+  · unfold DomTree.setItem? at hs
+    split at hs
+    · rename_i hok
+      obtain ⟨hok, h0, hlen⟩ := hok
+      injection hs with hs; subst hs
+      obtain ⟨hne, hit⟩ := argOK_frag hk hok
+      have hi : i = (i.toNat : Int) := (Int.toNat_of_nonneg h0).symm
+      have hlt : i.toNat < (h.kids s).length := by simp only [toLL_kids] at hlen; omega
+      rw [hi]
+      have := setItem_fragment_refines_list h s c i.toNat ha hk hne hit hlt
+      simp only [Int.toNat_natCast, items_frag hk, toLL_kids]
+      exact kids_eq_set this.1 this.2.1
+    · cases hs
+  · exact setItem_commutes h s c i ha hk m' hs
+
+/-- `replaceChild`, single node or fragment -/
+theorem replaceChild_commutes_any (h : Heap) (s new old : Id) (ha : NoAlias h) (m' : DomTree.LL)
+    (hs : DomTree.replaceChild? (toLL h) s new old = some m') : (replaceChild h s new old).1.kids = m'.kids := by
+  by_cases hk : h.kind new = .frag
+  · unfold DomTree.replaceChild? at hs
+    split at hs
+    · rename_i hok
+      obtain ⟨hok, hr, hne'⟩ := hok
+      injection hs with hs; subst hs
+      obtain ⟨hne, hit⟩ := argOK_frag hk hok
+      have hr' : old ∈ (h.kids s).erase new := (List.mem_erase_of_ne hne').mpr hr
+      have := replaceChild_fragment_refines_list h s new old ha hk hne hit hr'
+      simp only [items_frag hk, toLL_kids]
+      exact kids_eq_set this.1 this.2
+    · cases hs
+  · exact replaceChild_commutes h s new old ha hk m' hs
+
+/-- `insertBefore`, single node or fragment -/
+theorem insertBefore_commutes_any (h : Heap) (s new ref : Id) (ha : NoAlias h) (m' : DomTree.LL)
+    (hs : DomTree.insertRel? 0 (toLL h) s new ref = some m') : (insertBefore h s new ref).1.kids = m'.kids := by
+  by_cases hk : h.kind new = .frag
+  · unfold DomTree.insertRel? at hs
+    split at hs
+    · rename_i hok
+      obtain ⟨hok, hr, hne'⟩ := hok
+      injection hs with hs; subst hs
+      obtain ⟨hne, hit⟩ := argOK_frag hk hok
+      have hr' : ref ∈ (h.kids s).erase new := (List.mem_erase_of_ne hne').mpr hr
+      have := insertBefore_fragment_refines_list h s new ref ha hk hne hit hr'
+      simp only [items_frag hk, toLL_kids, DomTree.splice, Nat.add_zero]
+      exact kids_eq_set this.1 this.2
+    · cases hs
+  · exact insertBefore_commutes h s new ref ha hk m' hs
+
+/-- `insertAfter`, single node or fragment -/
+theorem insertAfter_commutes_any (h : Heap) (s new ref : Id) (ha : NoAlias h) (m' : DomTree.LL)
+    (hs : DomTree.insertRel? 1 (toLL h) s new ref = some m') : (insertAfter h s new ref).1.kids = m'.kids := by
+  by_cases hk : h.kind new = .frag
+  · unfold DomTree.insertRel? at hs
+    split at hs
+    · rename_i hok
+      obtain ⟨hok, hr, hne'⟩ := hok
+      injection hs with hs; subst hs
+      obtain ⟨hne, hit⟩ := argOK_frag hk hok
+      have hr' : ref ∈ (h.kids s).erase new := (List.mem_erase_of_ne hne').mpr hr
+      have := insertAfter_fragment_refines_list h s new ref ha hk hne hit hr'
+      simp only [items_frag hk, toLL_kids, DomTree.splice]
+      exact kids_eq_set this.1 this.2
+    · cases hs
+  · exact insertAfter_commutes h s new ref ha hk m' hs
+
 example : (DomTree.append? (toLL (create init 0 .elem 0 []).1) 0 1).isSome = true := by decide
+
+/-! ## cloneNode(deep=True): an equal, disjoint, detached copy -/
+
+/-- **a deep clone is equal to the original, shares no node with it and is detached**; the original is untouched.
+    `g` is the depth to which the two trees are unfolded: every depth below the recursion fuel the driver uses
+    (`fuelOf h = h.next + 2`, more than the number of nodes).  Hypotheses made explicit compared with the earlier
+    statement: the heap is well-formed (`WF`) and `s` is an allocated node. -/
+theorem clone_equal_disjoint (h : Heap) (s : Id) (ha : NoAlias h) (hwf : WF h) (hs : s < h.next) (g : Nat)
+    (hg : g < fuelOf h) :
+    (DomTree.abs g (toLL (opClone h s true).1.1) (opClone h s true).1.2).shape = (DomTree.abs g (toLL h) s).shape ∧
+    (∀ i ∈ (DomTree.abs g (toLL (opClone h s true).1.1) (opClone h s true).1.2).ids, i ∉ (DomTree.abs g (toLL h) s).ids) ∧
+    (opClone h s true).1.1.parent (opClone h s true).1.2 = none ∧
+    (∀ n, (opClone h s true).1.2 ∉ (opClone h s true).1.1.kids n) ∧
+    (∀ n, n < h.next → (opClone h s true).1.1.kids n = h.kids n) ∧
+    (opClone h s true).2 = none := by
+  have spec := Proofs.DomClone.clone_spec (fuelOf h) h.next h s ha hwf.2 hwf.1 hs (Nat.le_refl _)
+  simp only [opClone]
+  generalize clone (fuelOf h) h s true = r at spec
+  obtain ⟨sh, ids⟩ := spec.shape g hg
+  obtain ⟨hv, hpar⟩ := spec.root (by simp [fuelOf])
+  refine ⟨sh, ?_, hpar, ?_, fun n hn => (spec.frame n hn).1, trivial⟩
+  · intro i hi hi'
+    have h1 := (ids i hi).1
+    have h2 := Proofs.DomClone.abs_ids_lt hwf.1 g s hs i hi'
+    exact absurd h1 (Nat.not_le.mpr h2)
+  · intro n hm
+    by_cases hn : n < h.next
+    · rw [(spec.frame n hn).1] at hm
+      have := (hwf.1 n hn _ hm).1
+      rw [hv] at this; exact Nat.lt_irrefl _ this
+    · rcases spec.edges n r.2 (Nat.le_of_not_lt hn) hm with h1 | h1
+      · rw [hv] at h1; exact Nat.lt_irrefl _ h1
+      · rw [hv] at h1; exact hn h1
+
+/-! ## normalize at heap level: it computes the tree-level normalisation -/
+
+/-- the part of the heap below `s` is a tree: unfolded to the driver's depth it repeats no node
+    (no sharing, no cycle).  A decidable condition on the heap. -/
+def TreeBelow (h : Heap) (s : Id) : Prop := (DomTree.abs (fuelOf h) (toLL h) s).ids.Nodup
+
+/-- in a heap with correct parent links, no cycle and well-formed lists, the part below any non-fragment node is a tree -/
+theorem treeBelow_of_forest (h : Heap) (s : Id) (hinv : Inv h) (hac : Acyclic h) (hw : WF h)
+    (hk : h.kind s ≠ .frag) (hs : s < h.next) : TreeBelow h s :=
+  Proofs.DomTreeBelow.tree_below hinv hac hw (fuelOf h) s hk hs
+
+/-- histories whose every step meets its precondition, never puts an ancestor below itself, and uses allocated nodes -/
+def ValidAll : Heap → List Op → Prop
+  | _, [] => True
+  | h, o :: os => Pre h o ∧ NotAncestor h o ∧ Allocated h o ∧ ValidAll (applyOp h o) os
+
+/-- **after every such history the heap is a well-formed forest**, so below every non-fragment node it is a tree
+    and the heap-level theorems about `normalize` and `cloneNode` apply to it -/
+theorem forest_reachable (ops : List Op) : ∀ h, NoAlias h → Inv h → Acyclic h → Owned h → WF h → ValidAll h ops →
+    NoAlias (ops.foldl applyOp h) ∧ Inv (ops.foldl applyOp h) ∧ Acyclic (ops.foldl applyOp h) ∧
+    Owned (ops.foldl applyOp h) ∧ WF (ops.foldl applyOp h) ∧
+    ∀ s, (ops.foldl applyOp h).kind s ≠ .frag → s < (ops.foldl applyOp h).next → TreeBelow (ops.foldl applyOp h) s := by
+  induction ops with
+  | nil =>
+    intro h ha hi hac ho hw _
+    exact ⟨ha, hi, hac, ho, hw, fun s hk hs => treeBelow_of_forest h s hi hac hw hk hs⟩
+  | cons o os ih =>
+    intro h ha hi hac ho hw hv
+    have := inv_step h o ha hi hv.1
+    exact ih _ this.1 this.2 (acyclic_step h o ha hi hv.1 hv.2.1 hac) (owner_preserved h o ha hi hv.1 ho)
+      (wf_step h o ha hi hv.1 hv.2.2.1 hw) hv.2.2.2
+
+/-- `opNormalize` is `normalize` with the driver's fuel whenever the node has an owner document -/
+theorem opNormalize_eq (h : Heap) (s : Id) (ho : h.owner s ≠ none) :
+    opNormalize h s = (normalize (fuelOf h) h s, none) := by simp [opNormalize, ho]
+
+/-- **heap-level `normalize` = tree-level `Tree.normalize`** (up to the identity of the fresh text nodes), for
+    every unfolding depth up to the fuel; nothing outside the subtree of `s` changes; the heap stays well-formed.
+    Hypotheses made explicit compared with the earlier statement: `WF h`, `s` allocated, `TreeBelow h s`. -/
+theorem normalize_refines_tree (h : Heap) (s : Id) (ha : NoAlias h) (hwf : WF h) (hs : s < h.next)
+    (ht : TreeBelow h s) (g : Nat) (hg : g ≤ fuelOf h) :
+    (DomTree.abs g (toLL (normalize (fuelOf h) h s)) s).shape = (DomTree.abs g (toLL h) s).normalize.shape ∧
+    NoAlias (normalize (fuelOf h) h s) ∧
+    (∀ n, n < h.next → n ∉ (DomTree.abs (fuelOf h) (toLL h) s).ids → (normalize (fuelOf h) h s).kids n = h.kids n) := by
+  have spec := Proofs.DomNormalize.norm_spec (fuelOf h) h s ⟨ha, hwf.1, hs, ht⟩
+  exact ⟨spec.shape g hg, spec.noAlias, spec.frame⟩
+
+/-- heap-level: normalisation does not change `textContent` -/
+theorem normalize_preserves_textContent_heap (h : Heap) (s : Id) (ha : NoAlias h) (hwf : WF h) (hs : s < h.next)
+    (ht : TreeBelow h s) (g : Nat) (hg : g + 1 ≤ fuelOf h) :
+    textContent (g + 1) (normalize (fuelOf h) h s) s = textContent (g + 1) h s := by
+  obtain ⟨hsh, ha', _⟩ := normalize_refines_tree h s ha hwf hs ht (g + 1) hg
+  rw [textContent_is_concat _ s g ha', textContent_is_concat h s g ha,
+    Proofs.DomTree.textContent_congr hsh, Proofs.DomTree.normalize_textContent]
+
+/-- heap-level: after `normalize` no two text nodes are adjacent anywhere below `s` -/
+theorem normalize_merges_adjacent_text_heap (h : Heap) (s : Id) (ha : NoAlias h) (hwf : WF h) (hs : s < h.next)
+    (ht : TreeBelow h s) (g : Nat) (hg : g ≤ fuelOf h) :
+    DomTree.noAdjacentText [DomTree.abs g (toLL (normalize (fuelOf h) h s)) s] = true := by
+  obtain ⟨hsh, _, _⟩ := normalize_refines_tree h s ha hwf hs ht g hg
+  rw [Proofs.DomTree.noAdjacentText_congr (us := [(DomTree.abs g (toLL h) s).normalize]) (by simp [DomTree.shapeL, hsh])]
+  exact normalize_merges_adjacent_text _
+
+/-- heap-level: normalising again changes nothing (up to the identity of the merged text nodes), provided the
+    normalised subtree is still a tree at the larger fuel of the second run -/
+theorem normalize_idempotent_heap (h : Heap) (s : Id) (ha : NoAlias h) (hwf : WF h) (hs : s < h.next)
+    (ht : TreeBelow h s) (ht' : TreeBelow (normalize (fuelOf h) h s) s) (g : Nat) (hg : g ≤ fuelOf h) :
+    (DomTree.abs g (toLL (normalize (fuelOf (normalize (fuelOf h) h s)) (normalize (fuelOf h) h s) s)) s).shape =
+      (DomTree.abs g (toLL (normalize (fuelOf h) h s)) s).shape := by
+  have spec := Proofs.DomNormalize.norm_spec (fuelOf h) h s ⟨ha, hwf.1, hs, ht⟩
+  have hle : (h.next : Nat) ≤ (normalize (fuelOf h) h s).next := spec.next_le
+  have spec2 := Proofs.DomNormalize.norm_spec (fuelOf (normalize (fuelOf h) h s)) (normalize (fuelOf h) h s) s
+    ⟨spec.noAlias, spec.closed, Nat.lt_of_lt_of_le hs hle, ht'⟩
+  have hg2 : g ≤ fuelOf (normalize (fuelOf h) h s) := by
+    simp only [fuelOf] at hg ⊢; exact Nat.le_trans hg (Nat.add_le_add_right hle 2)
+  rw [spec2.shape g hg2, Proofs.DomTree.normalize_congr (spec.shape g hg), normalize_idempotent, ← spec.shape g hg]
+
+/-- non-vacuity: an element (1) holding two text nodes (2, 3) -/
+def exH : Heap := (opAppend (opAppend (create (create (create init 0 .elem 0 []).1 0 .text 0 [97]).1 0 .text 0 [98]).1 1 2).1 1 3).1
+
+example : TreeBelow exH 1 := by unfold TreeBelow; decide
+example : NoAlias exH := by
+  intro n; simp [exH, opAppend, splices, create, init, upd, fuelOf, append, appendLeaf, setPO, rawAppend]
+example : WF exH := by
+  constructor
+  · intro n hn c hc
+    have : n = 0 ∨ n = 1 ∨ n = 2 ∨ n = 3 := by
+      have : n < 4 := hn
+      omega
+    rcases this with rfl | rfl | rfl | rfl <;> revert c <;> decide
+  · intro n hn
+    have h4 : 4 ≤ n := hn
+    have h1 : n ≠ 1 := by omega
+    have h2 : n ≠ 2 := by omega
+    have h3 : n ≠ 3 := by omega
+    simp [exH, opAppend, splices, create, init, upd, fuelOf, append, appendLeaf, setPO, rawAppend, h1, h2, h3]
+example : (DomTree.abs 3 (toLL (normalize (fuelOf exH) exH 1)) 1).shape = .node .elem 0 [.text [97, 98]] := by rfl
+
+/-! ## document-position comparison -/
+
+/-- **document-position comparison of two nodes of one tree, neither an ancestor of the other**: with `la`, `lb` the
+    parent chains of `a` and `b` (ending in the same root), the two root-first chains share a prefix `P ++ [p]`
+    (`p` the lowest common ancestor) and continue with different children `x`, `y` of `p`; the answer is
+    FOLLOWING (4) when `x` comes before `y` among the children of `p`, PRECEDING (2) otherwise — the preorder
+    comparison the list model prescribes. -/
+theorem compareDocumentPosition_agrees (h : Heap) (a b : Id) (la lb : List Id) (ha : NoAlias h)
+    (hca : UpChain h a la) (hcb : UpChain h b lb) (hroot : la.getLast? = lb.getLast?)
+    (hab : a ∉ lb) (hba : b ∉ la) (hfa : la.length ≤ fuelOf h) (hfb : lb.length ≤ fuelOf h)
+    (ho : h.owner a = h.owner b) (hlist : ∀ n q, n ∈ la → h.parent n = some q → n ∈ h.kids q)
+    (hp : prevSibling h a ≠ some b) (hn : nextSibling h a ≠ some b) :
+    ∃ P p x A y B, la.reverse = P ++ p :: x :: A ∧ lb.reverse = P ++ p :: y :: B ∧ x ≠ y ∧
+      compareDocumentPosition h a b = if (h.kids p).idxOf x < (h.kids p).idxOf y then 4 else 2 := by
+  obtain ⟨ta, hta⟩ := hca.head
+  obtain ⟨tb, htb⟩ := hcb.head
+  have hane : a ≠ b := fun e => hab (by rw [htb, e]; simp)
+  -- same root: the reversed chains start with the same node
+  have hra : ∃ r t1, la.reverse = r :: t1 := by
+    cases hr : la.reverse with
+    | nil => rw [hta] at hr; simp at hr
+    | cons r t => exact ⟨r, t, rfl⟩
+  obtain ⟨r, t1, e1⟩ := hra
+  have hrb : ∃ t2, lb.reverse = r :: t2 := by
+    have h1 : la.getLast? = some r := by rw [← List.head?_reverse, e1]; rfl
+    have h2 : lb.reverse.head? = some r := by rw [List.head?_reverse, ← hroot, h1]
+    cases hr : lb.reverse with
+    | nil => rw [hr] at h2; simp at h2
+    | cons r' t => rw [hr] at h2; simp at h2; subst h2; exact ⟨t, rfl⟩
+  obtain ⟨t2, e2⟩ := hrb
+  have np1 : ¬ (r :: t1) <+: (r :: t2) := by
+    intro hpre
+    rw [← e1, ← e2] at hpre
+    have : a ∈ lb.reverse := hpre.subset (by rw [hta]; simp)
+    exact hab (List.mem_reverse.mp this)
+  have np2 : ¬ (r :: t2) <+: (r :: t1) := by
+    intro hpre
+    rw [← e1, ← e2] at hpre
+    have : b ∈ la.reverse := hpre.subset (by rw [htb]; simp)
+    exact hba (List.mem_reverse.mp this)
+  obtain ⟨P, p, x, A, y, B, d1, d2, hxy⟩ := lists_part t1 t2 r np1 np2
+  rw [← e1] at d1; rw [← e2] at d2
+  refine ⟨P, p, x, A, y, B, d1, d2, hxy, ?_⟩
+  -- x is a listed child of p
+  have hla : la = A.reverse ++ x :: p :: P.reverse := by
+    have := congrArg List.reverse d1
+    simpa using this
+  have hpx : h.parent x = some p := hca.consec A.reverse x p P.reverse hla
+  have hxk : x ∈ h.kids p := hlist x p (by rw [hla]; simp) hpx
+  have hnd : (P ++ p :: y :: B).Nodup := by rw [← d2]; exact (List.reverse_perm lb).nodup_iff.mpr hcb.nodup
+  have c1 := chainUp_complete hca b hba (fuelOf h) [] hfa
+  have c2 := chainUp_complete hcb a hab (fuelOf h) [] hfb
+  simp only [List.append_nil] at c1 c2
+  have hsc := scanItems_eq (childList h p) x y hxy (Or.inl (by rw [childList_eq ha]; exact hxk))
+  rw [childList_eq ha] at hsc
+  simp only [compareDocumentPosition, ho, ne_eq, not_true_eq_false, if_false, hp, hn, hane, c1, c2, d1, d2]
+  exact cmpLoop_split h P p x y A B _ hnd hxy (by rw [childList_eq ha]; exact hsc)
+
+/-- **… and that is what the list model's executable `comparePos` computes**: for two nodes of one tree, neither an
+    ancestor of the other, whose parent chains consist of real list memberships (`Link`) -/
+theorem compareDocumentPosition_agrees_spec (h : Heap) (a b : Id) (la lb : List Id) (ha : NoAlias h) (hinv : Inv h)
+    (hca : UpChain h a la) (hcb : UpChain h b lb) (hroot : la.getLast? = lb.getLast?)
+    (hab : a ∉ lb) (hba : b ∉ la) (hfa : la.length ≤ h.next + 1) (hfb : lb.length ≤ h.next + 1)
+    (ho : h.owner a = h.owner b) (hla : ∀ n ∈ la, Link h n) (hlb : ∀ n ∈ lb, Link h n)
+    (hp : prevSibling h a ≠ some b) (hn : nextSibling h a ≠ some b) :
+    compareDocumentPosition h a b = DomTree.comparePos (toLL h) a b := by
+  obtain ⟨P, p, x, A, y, B, d1, d2, hxy, hval⟩ := compareDocumentPosition_agrees h a b la lb ha hca hcb hroot hab hba
+    (by simp only [fuelOf]; omega) (by simp only [fuelOf]; omega) ho
+    (fun n q hn hq => (hla n hn q hq).2.2) hp hn
+  obtain ⟨tb, htb⟩ := hcb.head
+  have hane : a ≠ b := fun e => hab (by rw [htb, e]; simp)
+  have pa := pathTo_eq hinv hca hla h.next hfa
+  have pb := pathTo_eq hinv hcb hlb h.next hfb
+  have hh : (P ++ p :: x :: A).head? = (P ++ p :: y :: B).head? := by cases P <;> simp
+  have n1 : (P ++ p :: y :: B).isPrefixOf (P ++ p :: x :: A) = false := by
+    rw [Bool.eq_false_iff]; intro hpre
+    exact not_prefix_part P p y x B A (Ne.symm hxy) (List.isPrefixOf_iff_prefix.mp hpre)
+  have n2 : (P ++ p :: x :: A).isPrefixOf (P ++ p :: y :: B) = false := by
+    rw [Bool.eq_false_iff]; intro hpre
+    exact not_prefix_part P p x y A B hxy (List.isPrefixOf_iff_prefix.mp hpre)
+  rw [hval]
+  unfold DomTree.comparePos
+  simp only [hane, if_false]
+  show _ = if (DomTree.pathTo (toLL h).next (toLL h) a).head? ≠ (DomTree.pathTo (toLL h).next (toLL h) b).head? then 1
+    else if (DomTree.pathTo (toLL h).next (toLL h) b).isPrefixOf (DomTree.pathTo (toLL h).next (toLL h) a) then 8
+    else if (DomTree.pathTo (toLL h).next (toLL h) a).isPrefixOf (DomTree.pathTo (toLL h).next (toLL h) b) then 16
+    else DomTree.comparePos.go (toLL h) (DomTree.pathTo (toLL h).next (toLL h) a) (DomTree.pathTo (toLL h).next (toLL h) b) a
+  have hnx : (toLL h).next = h.next := rfl
+  rw [hnx, pa, pb, d1, d2]
+  simp only [hh, ne_eq, not_true_eq_false, if_false, n1, n2, Bool.false_eq_true]
+  rw [go_part (toLL h) p x y A B hxy P a]
+  rfl
+
+/-- `other` is an ancestor of `self`: CONTAINS (8) -/
+theorem compareDocumentPosition_ancestor (h : Heap) (a b : Id) (la : List Id) (hca : UpChain h a la)
+    (hb : b ∈ la) (hane : a ≠ b) (hfa : la.length ≤ fuelOf h) (ho : h.owner a = h.owner b)
+    (hp : prevSibling h a ≠ some b) (hn : nextSibling h a ≠ some b) :
+    compareDocumentPosition h a b = 8 := by
+  have c1 := chainUp_hits hca b hb (fuelOf h) [] hfa
+  simp [compareDocumentPosition, ho, hp, hn, hane, c1]
+
+/-- `other` is a descendant of `self`: CONTAINED_BY (16) -/
+theorem compareDocumentPosition_descendant (h : Heap) (a b : Id) (la lb : List Id) (hca : UpChain h a la)
+    (hcb : UpChain h b lb) (ha : a ∈ lb) (hb : b ∉ la) (hane : a ≠ b) (hfa : la.length ≤ fuelOf h)
+    (hfb : lb.length ≤ fuelOf h) (ho : h.owner a = h.owner b)
+    (hp : prevSibling h a ≠ some b) (hn : nextSibling h a ≠ some b) :
+    compareDocumentPosition h a b = 16 := by
+  have c1 := chainUp_complete hca b hb (fuelOf h) [] hfa
+  have c2 := chainUp_hits hcb a ha (fuelOf h) [] hfb
+  simp [compareDocumentPosition, ho, hp, hn, hane, c1, c2]
+
+/-- `other` is an ancestor of `self`: CONTAINS (8), as the list model's `comparePos` says -/
+theorem compareDocumentPosition_ancestor_spec (h : Heap) (a b : Id) (la lb : List Id) (hinv : Inv h)
+    (hca : UpChain h a la) (hcb : UpChain h b lb) (hb : b ∈ la) (hane : a ≠ b)
+    (hfa : la.length ≤ h.next + 1) (ho : h.owner a = h.owner b) (hla : ∀ n ∈ la, Link h n)
+    (hp : prevSibling h a ≠ some b) (hn : nextSibling h a ≠ some b) :
+    compareDocumentPosition h a b = DomTree.comparePos (toLL h) a b := by
+  rw [compareDocumentPosition_ancestor h a b la hca hb hane (by simp only [fuelOf]; omega) ho hp hn]
+  obtain ⟨U, l', hsplit, hl'⟩ := UpChain_split hca hb
+  have hlb : lb = l' := hcb.det hl'
+  subst hlb
+  have hlbl : ∀ n ∈ lb, Link h n := fun n hn => hla n (by rw [hsplit]; simp [hn])
+  have hfb : lb.length ≤ h.next + 1 := by rw [hsplit] at hfa; simp at hfa; omega
+  have pa := pathTo_eq hinv hca hla h.next hfa
+  have pb := pathTo_eq hinv hcb hlbl h.next hfb
+  have hne : lb.reverse ≠ [] := by simpa using hcb.last_root
+  unfold DomTree.comparePos
+  simp only [hane, if_false]
+  show _ = if (DomTree.pathTo (toLL h).next (toLL h) a).head? ≠ (DomTree.pathTo (toLL h).next (toLL h) b).head? then 1
+    else if (DomTree.pathTo (toLL h).next (toLL h) b).isPrefixOf (DomTree.pathTo (toLL h).next (toLL h) a) then 8
+    else if (DomTree.pathTo (toLL h).next (toLL h) a).isPrefixOf (DomTree.pathTo (toLL h).next (toLL h) b) then 16
+    else DomTree.comparePos.go (toLL h) (DomTree.pathTo (toLL h).next (toLL h) a) (DomTree.pathTo (toLL h).next (toLL h) b) a
+  have hnx : (toLL h).next = h.next := rfl
+  rw [hnx, pa, pb, hsplit, List.reverse_append]
+  have hh : (lb.reverse ++ U.reverse).head? = lb.reverse.head? := head?_append_ne hne
+  have hpre : lb.reverse.isPrefixOf (lb.reverse ++ U.reverse) = true :=
+    List.isPrefixOf_iff_prefix.mpr (List.prefix_append _ _)
+  simp [hh, hpre]
+
+/-- `other` is a descendant of `self`: CONTAINED_BY (16), as the list model's `comparePos` says -/
+theorem compareDocumentPosition_descendant_spec (h : Heap) (a b : Id) (la lb : List Id) (hinv : Inv h)
+    (hca : UpChain h a la) (hcb : UpChain h b lb) (ha' : a ∈ lb) (hb : b ∉ la) (hane : a ≠ b)
+    (hfb : lb.length ≤ h.next + 1) (ho : h.owner a = h.owner b) (hlb : ∀ n ∈ lb, Link h n)
+    (hp : prevSibling h a ≠ some b) (hn : nextSibling h a ≠ some b) :
+    compareDocumentPosition h a b = DomTree.comparePos (toLL h) a b := by
+  obtain ⟨U, l', hsplit, hl'⟩ := UpChain_split hcb ha'
+  have hla : la = l' := hca.det hl'
+  subst hla
+  have hlal : ∀ n ∈ la, Link h n := fun n hn => hlb n (by rw [hsplit]; simp [hn])
+  have hfa : la.length ≤ h.next + 1 := by rw [hsplit] at hfb; simp at hfb; omega
+  rw [compareDocumentPosition_descendant h a b la lb hca hcb ha' hb hane (by simp only [fuelOf]; omega)
+    (by simp only [fuelOf]; omega) ho hp hn]
+  have pa := pathTo_eq hinv hca hlal h.next hfa
+  have pb := pathTo_eq hinv hcb hlb h.next hfb
+  have hne : la.reverse ≠ [] := by simpa using hca.last_root
+  obtain ⟨tb, htb⟩ := hcb.head
+  unfold DomTree.comparePos
+  simp only [hane, if_false]
+  show _ = if (DomTree.pathTo (toLL h).next (toLL h) a).head? ≠ (DomTree.pathTo (toLL h).next (toLL h) b).head? then 1
+    else if (DomTree.pathTo (toLL h).next (toLL h) b).isPrefixOf (DomTree.pathTo (toLL h).next (toLL h) a) then 8
+    else if (DomTree.pathTo (toLL h).next (toLL h) a).isPrefixOf (DomTree.pathTo (toLL h).next (toLL h) b) then 16
+    else DomTree.comparePos.go (toLL h) (DomTree.pathTo (toLL h).next (toLL h) a) (DomTree.pathTo (toLL h).next (toLL h) b) a
+  have hnx : (toLL h).next = h.next := rfl
+  rw [hnx, pa, pb]
+  have hrev : lb.reverse = la.reverse ++ U.reverse := by rw [hsplit, List.reverse_append]
+  have hh : lb.reverse.head? = la.reverse.head? := by rw [hrev]; exact head?_append_ne hne
+  have hpre : la.reverse.isPrefixOf lb.reverse = true := by
+    rw [hrev]; exact List.isPrefixOf_iff_prefix.mpr (List.prefix_append _ _)
+  have hnpre : lb.reverse.isPrefixOf la.reverse = false := by
+    rw [Bool.eq_false_iff]; intro hpre'
+    have : b ∈ la.reverse := (List.isPrefixOf_iff_prefix.mp hpre').subset (by rw [htb]; simp)
+    exact hb (List.mem_reverse.mp this)
+  simp [hh, hpre, hnpre]
+
+/-- adjacent siblings are decided first: the previous sibling PRECEDES (2), the next one FOLLOWS (4) -/
+theorem compareDocumentPosition_adjacent (h : Heap) (a b : Id) (ho : h.owner a = h.owner b) :
+    (prevSibling h a = some b → compareDocumentPosition h a b = 2) ∧
+    (prevSibling h a ≠ some b → nextSibling h a = some b → compareDocumentPosition h a b = 4) := by
+  constructor
+  · intro hp; simp [compareDocumentPosition, ho, hp]
+  · intro hp hn; simp [compareDocumentPosition, ho, hp, hn]
+
+/-- nodes of different trees: DISCONNECTED (1), as the list model's `comparePos` says -/
+theorem compareDocumentPosition_disconnected_spec (h : Heap) (a b : Id) (la lb : List Id) (ha : NoAlias h) (hinv : Inv h)
+    (hca : UpChain h a la) (hcb : UpChain h b lb) (hroot : la.getLast? ≠ lb.getLast?)
+    (hfa : la.length ≤ h.next + 1) (hfb : lb.length ≤ h.next + 1) (ho : h.owner a = h.owner b)
+    (hla : ∀ n ∈ la, Link h n) (hlb : ∀ n ∈ lb, Link h n) :
+    compareDocumentPosition h a b = 1 ∧ DomTree.comparePos (toLL h) a b = 1 := by
+  -- chains with different roots share no node
+  have hdisj : ∀ u, u ∈ la → u ∉ lb := by
+    intro u h1 h2
+    obtain ⟨U1, l1, e1, c1⟩ := UpChain_split hca h1
+    obtain ⟨U2, l2, e2, c2⟩ := UpChain_split hcb h2
+    have := c1.det c2
+    subst this
+    apply hroot
+    rw [e1, e2, getLast?_append_ne c1.last_root, getLast?_append_ne c1.last_root]
+  obtain ⟨ta, hta⟩ := hca.head
+  obtain ⟨tb, htb⟩ := hcb.head
+  have hab : a ∉ lb := hdisj a (by rw [hta]; simp)
+  have hba : b ∉ la := fun hm => hdisj b hm (by rw [htb]; simp)
+  have hane : a ≠ b := fun e => hab (by rw [htb, e]; simp)
+  -- not siblings
+  have hns : ¬ (prevSibling h a = some b ∨ nextSibling h a = some b) := by
+    intro hs
+    obtain ⟨p, hp, hbp⟩ := sibling_some hs
+    rw [childList_eq ha] at hbp
+    have hl := hla a (by rw [hta]; simp) p hp
+    have hpb : h.parent b = some p := hinv.1 p b hl.2.1 hbp
+    cases hca with
+    | root _ hp' => rw [hp] at hp'; cases hp'
+    | step _ p' l1 hp' hl1 =>
+      rw [hp] at hp'; cases hp'
+      cases hcb with
+      | root _ hp'' => rw [hpb] at hp''; cases hp''
+      | step _ p'' l2 hp'' hl2 =>
+        rw [hpb] at hp''; cases hp''
+        have := hl1.det hl2
+        subst this
+        exact hroot (by rw [UpChain_getLast_tail hl1, UpChain_getLast_tail hl1])
+  have hp : prevSibling h a ≠ some b := fun e => hns (Or.inl e)
+  have hn : nextSibling h a ≠ some b := fun e => hns (Or.inr e)
+  have c1 := chainUp_complete hca b hba (fuelOf h) [] (by simp only [fuelOf]; omega)
+  have c2 := chainUp_complete hcb a hab (fuelOf h) [] (by simp only [fuelOf]; omega)
+  simp only [List.append_nil] at c1 c2
+  constructor
+  · simp only [compareDocumentPosition, ho, ne_eq, not_true_eq_false, if_false, hp, hn, hane, c1, c2, cmpLoop]
+    exact outer_disjoint h _ _ _ 0 (fun x hx hx' => hdisj x (List.mem_reverse.mp hx) (List.mem_reverse.mp hx'))
+  · have pa := pathTo_eq hinv hca hla h.next hfa
+    have pb := pathTo_eq hinv hcb hlb h.next hfb
+    unfold DomTree.comparePos
+    simp only [hane, if_false]
+    show (if (DomTree.pathTo (toLL h).next (toLL h) a).head? ≠ (DomTree.pathTo (toLL h).next (toLL h) b).head? then 1
+      else if (DomTree.pathTo (toLL h).next (toLL h) b).isPrefixOf (DomTree.pathTo (toLL h).next (toLL h) a) then 8
+      else if (DomTree.pathTo (toLL h).next (toLL h) a).isPrefixOf (DomTree.pathTo (toLL h).next (toLL h) b) then 16
+      else DomTree.comparePos.go (toLL h) (DomTree.pathTo (toLL h).next (toLL h) a) (DomTree.pathTo (toLL h).next (toLL h) b) a) = 1
+    have hnx : (toLL h).next = h.next := rfl
+    rw [hnx, pa, pb, List.head?_reverse, List.head?_reverse]
+    simp [hroot]
+
+/-- adjacent siblings: PRECEDING (2) for the previous sibling, FOLLOWING (4) for the next one, as the list model's
+    `comparePos` says -/
+theorem compareDocumentPosition_adjacent_spec (h : Heap) (a b : Id) (la lb : List Id) (ha : NoAlias h) (hinv : Inv h)
+    (hca : UpChain h a la) (hcb : UpChain h b lb) (hfa : la.length ≤ h.next + 1)
+    (ho : h.owner a = h.owner b) (hla : ∀ n ∈ la, Link h n)
+    (hs : prevSibling h a = some b ∨ nextSibling h a = some b) :
+    compareDocumentPosition h a b = DomTree.comparePos (toLL h) a b := by
+  obtain ⟨ta, hta⟩ := hca.head
+  obtain ⟨p, hp, _⟩ := sibling_some hs
+  have hl := hla a (by rw [hta]; simp) p hp
+  have hnd : (h.kids p).Nodup := hinv.2 p hl.2.1
+  have hia : (h.kids p).idxOf a < (h.kids p).length := List.idxOf_lt_length_of_mem hl.2.2
+  -- position of b next to a
+  have hb : b ∈ h.kids p ∧ ((prevSibling h a = some b ∧ (h.kids p).idxOf b + 1 = (h.kids p).idxOf a) ∨
+      (prevSibling h a ≠ some b ∧ nextSibling h a = some b ∧ (h.kids p).idxOf b = (h.kids p).idxOf a + 1)) := by
+    have key : ∀ j, (h.kids p)[j]? = some b → b ∈ h.kids p ∧ (h.kids p).idxOf b = j := by
+      intro j hj
+      obtain ⟨hlt, he⟩ := List.getElem?_eq_some_iff.mp hj
+      exact ⟨List.mem_of_getElem? hj, by rw [← he]; exact List.Nodup.idxOf_getElem hnd j hlt⟩
+    by_cases hpv : prevSibling h a = some b
+    · have h1 := hpv
+      simp only [prevSibling, hp, childList_eq ha, hl.2.2, if_true] at h1
+      split at h1
+      · cases h1
+      · rename_i h0
+        have := key _ h1
+        exact ⟨this.1, Or.inl ⟨hpv, by omega⟩⟩
+    · have hnx : nextSibling h a = some b := hs.resolve_left hpv
+      have h1 := hnx
+      simp only [nextSibling, hp, childList_eq ha, hl.2.2, if_true] at h1
+      have := key _ h1
+      exact ⟨this.1, Or.inr ⟨hpv, hnx, this.2⟩⟩
+  obtain ⟨hbm, hpos⟩ := hb
+  have hpb : h.parent b = some p := hinv.1 p b hl.2.1 hbm
+  have hane : a ≠ b := by
+    intro e; subst e; rcases hpos with ⟨_, h1⟩ | ⟨_, _, h1⟩ <;> omega
+  -- the two chains are a :: lp and b :: lp
+  cases hca with
+  | root _ hp' => rw [hp] at hp'; cases hp'
+  | step _ p' lp hp' hlp =>
+    rw [hp] at hp'; cases hp'
+    have hlb : lb = b :: lp := hcb.det (.step b p lp hpb hlp)
+    subst hlb
+    obtain ⟨tp, htp⟩ := hlp.head
+    have hlinkb : ∀ n ∈ b :: lp, Link h n := by
+      intro n hn
+      rcases List.mem_cons.mp hn with e | hm
+      · subst e; intro q hq; rw [hpb] at hq; cases hq; exact ⟨hl.1, hl.2.1, hbm⟩
+      · exact hla n (by simp [hm])
+    have pa := pathTo_eq hinv (.step a p lp hp hlp) hla h.next hfa
+    have pb := pathTo_eq hinv hcb hlinkb h.next (by simpa using hfa)
+    have ea : (a :: lp).reverse = tp.reverse ++ p :: a :: [] := by rw [htp]; simp
+    have eb : (b :: lp).reverse = tp.reverse ++ p :: b :: [] := by rw [htp]; simp
+    rw [ea] at pa; rw [eb] at pb
+    rw [comparePos_part h a b tp.reverse p a [] b [] hane pa pb hane]
+    rcases hpos with ⟨hpv, hidx⟩ | ⟨hpv, hnx, hidx⟩
+    · rw [(compareDocumentPosition_adjacent h a b ho).1 hpv]
+      have : ¬ (h.kids p).idxOf a < (h.kids p).idxOf b := by omega
+      simp [this]
+    · rw [(compareDocumentPosition_adjacent h a b ho).2 hpv hnx]
+      have : (h.kids p).idxOf a < (h.kids p).idxOf b := by omega
+      simp [this]
+
+/-- **`compareDocumentPosition` = the list model's `comparePos`** for every pair of nodes whose parent chains exist,
+    fit the recursion fuel and consist of real list memberships (`Link`): same node, adjacent siblings, ancestor,
+    descendant, two branches of one tree, different trees -/
+theorem compareDocumentPosition_agrees_all (h : Heap) (a b : Id) (la lb : List Id) (ha : NoAlias h) (hinv : Inv h)
+    (hca : UpChain h a la) (hcb : UpChain h b lb) (hfa : la.length ≤ h.next + 1) (hfb : lb.length ≤ h.next + 1)
+    (ho : h.owner a = h.owner b) (hla : ∀ n ∈ la, Link h n) (hlb : ∀ n ∈ lb, Link h n) :
+    compareDocumentPosition h a b = DomTree.comparePos (toLL h) a b := by
+  by_cases hs : prevSibling h a = some b ∨ nextSibling h a = some b
+  · exact compareDocumentPosition_adjacent_spec h a b la lb ha hinv hca hcb hfa ho hla hs
+  · have hp : prevSibling h a ≠ some b := fun e => hs (Or.inl e)
+    have hn : nextSibling h a ≠ some b := fun e => hs (Or.inr e)
+    by_cases hab : a = b
+    · subst hab
+      simp [compareDocumentPosition, hp, hn, DomTree.comparePos]
+    · by_cases hroot : la.getLast? = lb.getLast?
+      · by_cases hb : b ∈ la
+        · exact compareDocumentPosition_ancestor_spec h a b la lb hinv hca hcb hb hab hfa ho hla hp hn
+        · by_cases ha' : a ∈ lb
+          · exact compareDocumentPosition_descendant_spec h a b la lb hinv hca hcb ha' hb hab hfb ho hlb hp hn
+          · exact compareDocumentPosition_agrees_spec h a b la lb ha hinv hca hcb hroot ha' hb hfa hfb ho hla hlb hp hn
+      · have := compareDocumentPosition_disconnected_spec h a b la lb ha hinv hca hcb hroot hfa hfb ho hla hlb
+        rw [this.1, this.2]
+
+/-- non-vacuity: document 0 ▸ element 1 ▸ elements 2, 3, 4; nodes 4 and 2 are not adjacent: 2 PRECEDES 4 -/
+def exC : Heap :=
+  (opAppend (opAppend (opAppend (opAppend
+    (create (create (create (create init 0 .elem 0 []).1 0 .elem 1 []).1 0 .elem 1 []).1 0 .elem 1 []).1 0 1).1 1 2).1 1 3).1 1 4).1
+
+example : UpChain exC 4 [4, 1, 0] ∧ UpChain exC 2 [2, 1, 0] :=
+  ⟨.step 4 1 _ (by decide) (.step 1 0 _ (by decide) (.root 0 (by decide))),
+   .step 2 1 _ (by decide) (.step 1 0 _ (by decide) (.root 0 (by decide)))⟩
+example : compareDocumentPosition exC 4 2 = 2 ∧ compareDocumentPosition exC 2 4 = 4 := by decide
 
 /-! ## statements carried by the correspondence only (not proved) -/
 
-/-- the heap-level `normalize` computes the tree-level normalisation (up to the identity of the fresh text
-    nodes).  Not proved: needs a frame argument over the fresh allocations of `appendText`; checked on every
-    history of the `hist` stream (model dump = list-model dump after `nm`). -/
-def normalize_refines_tree_statement : Prop :=
-  ∀ (h : Heap) (s : Id) (fuel : Nat), NoAlias h → Inv h →
-    (DomTree.abs fuel (toLL (normalize (fuelOf h) h s)) s).shape = (DomTree.abs fuel (toLL h) s).normalize.shape
-
-/-- a deep clone is equal in shape to the original and shares no node with it.  Not proved (allocation frame
-    argument); checked by the `hist` stream (`cl s 1`) and the disjointness part of the invariant oracle. -/
-def clone_equal_disjoint_statement : Prop :=
-  ∀ (h : Heap) (s : Id) (fuel : Nat), NoAlias h → Inv h →
-    let r := clone (fuelOf h) h s true
-    (DomTree.abs fuel (toLL r.1) r.2).shape = (DomTree.abs fuel (toLL h) s).shape ∧
-    ∀ i ∈ (DomTree.abs fuel (toLL r.1) r.2).ids, i ∉ (DomTree.abs fuel (toLL h) s).ids
-
-/-- `compareDocumentPosition` agrees with the position predicted by the list model for two nodes of one tree.
-    Not proved; compared on the first 7 nodes of every history. -/
-def compareDocumentPosition_agrees_statement : Prop :=
-  ∀ (h : Heap) (a b : Id), NoAlias h → Inv h → h.kind a ≠ .frag → h.kind b ≠ .frag →
-    (∀ n, h.parent n ≠ none → ∃ p, h.parent n = some p ∧ n ∈ h.kids p) →
-    compareDocumentPosition h a b = DomTree.comparePos (toLL h) a b
+/-- `normalize` and `cloneNode(True)` as steps of a history: they keep the forest invariants, so that histories mixing
+    them with the sixteen list operations stay inside `forest_reachable`.  Not proved: `normalize_refines_tree` and
+    `clone_equal_disjoint` describe the child lists, kinds and texts (and keep `NoAlias`; normalize also keeps the
+    lists closed), but the `parentNode`/`ownerDocument` fields of the nodes they re-append or create and a rank
+    function for the rebuilt subtree are not tracked by `Proofs/DomNormalize.lean` / `Proofs/DomClone.lean`.
+    The `hist` stream checks the invariant on the real objects after every such step. -/
+def normalize_clone_keep_forest_statement : Prop :=
+  ∀ (h : Heap) (s : Id), NoAlias h → Inv h → Acyclic h → Owned h → WF h → s < h.next → h.kind s ≠ .frag →
+    (Inv (normalize (fuelOf h) h s) ∧ Acyclic (normalize (fuelOf h) h s) ∧ Owned (normalize (fuelOf h) h s) ∧
+      WF (normalize (fuelOf h) h s)) ∧
+    (Inv (opClone h s true).1.1 ∧ Acyclic (opClone h s true).1.1 ∧ Owned (opClone h s true).1.1 ∧
+      WF (opClone h s true).1.1)
 
 end PlasVerif.Properties.C06
